@@ -196,6 +196,18 @@ add('C16', 'fault_enumeration',
     'DESIGN.md 3 C16', 'Oracle ref/rules.py (agrees with the repository\'s checkblock_valid/invalid vectors). Commitment outputs > 39 bytes are don\'t-care.',
     'exhaustive single and pairwise rule-violation (fault) enumeration against a reference rule list')
 
+add('C18', 'fault_enumeration',
+    'All 17 message types: deviation-bounded product (k<=2 / 3 on mainnet, k<=1 on the other chains) over non-default field values '
+    '(IPv4/IPv6/v4-mapped addresses, ports, uint64 extremes, vectors of 0..3 and 253 entries, var-strings 0/252/253/70000, C01 '
+    'transactions/blocks/headers, protocol versions 209..70015 with the relay flag) -> frame byte-identical to the reference layout, '
+    'parse gives the same type and field values, consumes exactly the frame, re-frames identically. Explicit enumeration of all '
+    '8,420 streams of <=3 frames from a pool of 20 (position after every message). Every pool frame: every truncation point, every '
+    'byte x 4 corruptions judged by region (magic/checksum/payload must be rejected, command judged by what it names, length by '
+    'the slice), a 9-value length-field catalogue with recomputed checksum and a sentinel frame (nothing read beyond the header for '
+    'lengths > MAX_SIZE), foreign-chain magic.',
+    'DESIGN.md 3 C18', 'Oracle ref/p2p.py (payload layouts from the protocol documentation; literal verack/ping frames).',
+    'exhaustive single-fault enumeration on frames plus bounded exhaustive enumeration of messages and frame streams against a reference model')
+
 NOT_YET = 'check not yet built in this revision of /verif (planned, see DESIGN.md section 3)'
 
 
